@@ -358,6 +358,7 @@ def read_vectors(path, limit=None, seed=1):
         rnd.shuffle(rest)
         if len(core) > limit * 3 // 4:
             rnd.shuffle(core)
+            core.sort(key=lambda v: sum(1 for o in v if o["op"] == "call"))     # every short history, then a sample of the longest
             core = core[:limit * 3 // 4]
         vecs = core + rest[:max(0, limit - len(core))]
     return vecs
